@@ -115,6 +115,7 @@ func Load(dir string, tests bool) (*Program, error) {
 		return nil, fmt.Errorf("load: package %s/mqtttest not found", RootPath)
 	}
 	p.AllFuncs = ssautil.AllFunctions(prog)
+	p.aliasMethodsAndFunctions()
 	return p, nil
 }
 
@@ -135,7 +136,73 @@ func (p *Program) Func(name string) *ssa.Function { return FuncIn(p.SSA, p.Root,
 // TestFunc resolves in mqtttest.
 func (p *Program) TestFunc(name string) *ssa.Function { return FuncIn(p.SSA, p.Test, name) }
 
+// A known method that has become a plain function taking the receiver as its
+// first parameter (or the reverse) keeps its known name: the parameters are in
+// the same positions either way, and the body is judged by the same rules.
+var aliasName = map[*ssa.Function]string{}
+var aliasFn = map[string]*ssa.Function{}
+
+func (p *Program) aliasMethodsAndFunctions() {
+	aliasName = map[*ssa.Function]string{}
+	aliasFn = map[string]*ssa.Function{}
+	for _, k := range KnownFuncs {
+		pkg, prefix := p.Root, ""
+		name := k.Name
+		if strings.HasPrefix(name, "mqtttest.") {
+			pkg, prefix, name = p.Test, "mqtttest.", strings.TrimPrefix(name, "mqtttest.")
+		}
+		if FuncIn(p.SSA, pkg, name) != nil {
+			continue
+		}
+		if strings.HasPrefix(name, "(") {
+			// method → function: (recv).m with (A)(R)  ⇒  m with (recv,A)(R)
+			end := strings.Index(name, ").")
+			recv, m := name[1:end], name[end+2:]
+			f := pkg.Func(m)
+			if f == nil || f.Signature.Recv() != nil {
+				continue
+			}
+			want := "(" + recv
+			if rest := strings.TrimPrefix(k.Sig, "("); !strings.HasPrefix(rest, ")") {
+				want += "," + rest
+			} else {
+				want += rest
+			}
+			if SigString(f.Signature, pkg.Pkg) == want {
+				aliasName[f] = k.Name
+				aliasFn[k.Name] = f
+				p.Renames = append(p.Renames, Rename{"func", k.Name, prefix + m + " (a plain function now)"})
+			}
+			continue
+		}
+		// function → method: f with (recv,A)(R)  ⇒  (recv).f with (A)(R)
+		first := strings.TrimPrefix(k.Sig, "(")
+		cut := strings.IndexAny(first, ",)")
+		if cut <= 0 {
+			continue
+		}
+		recv := first[:cut]
+		m := FuncIn(p.SSA, pkg, "("+recv+")."+name)
+		if m == nil {
+			continue
+		}
+		rest := first[cut:]
+		rest = strings.TrimPrefix(rest, ",")
+		if SigString(m.Signature, pkg.Pkg) == "("+rest {
+			aliasName[m] = k.Name
+			aliasFn[k.Name] = m
+			p.Renames = append(p.Renames, Rename{"func", k.Name, prefix + "(" + recv + ")." + name + " (a method now)"})
+		}
+	}
+}
+
 func FuncIn(prog *ssa.Program, pkg *ssa.Package, name string) *ssa.Function {
+	if f, ok := aliasFn[name]; ok && f.Pkg == pkg {
+		return f
+	}
+	if f, ok := aliasFn["mqtttest."+name]; ok && f.Pkg == pkg {
+		return f
+	}
 	if strings.HasPrefix(name, "(") {
 		end := strings.Index(name, ").")
 		if end < 0 {
@@ -208,6 +275,9 @@ func TopLevel(f *ssa.Function) *ssa.Function {
 func FuncName(f *ssa.Function) string {
 	if f == nil {
 		return "<nil>"
+	}
+	if a, ok := aliasName[f]; ok {
+		return a
 	}
 	if f.Parent() != nil {
 		return FuncName(f.Parent()) + strings.TrimPrefix(f.Name(), f.Parent().Name())
